@@ -125,11 +125,15 @@ class SuperNetCombiner(nn.Module):
         :rtype: Dict[str, Any]
         """
         with torch.no_grad():
-            self.sample_alpha()
+            # report the (noise-free) selection coefficients without overwriting the ones
+            # sampled in the last forward pass, which the cost computation still depends on
+            sampled = self.theta_alpha
+            self.sample_alpha_sm()
+            theta_alpha, self.theta_alpha = self.theta_alpha, sampled
         res = {"supernet_branches": {}}
         for i in range(self.n_branches):
             res["supernet_branches"][f"branch_{i}"] = {}
-            res["supernet_branches"][f"branch_{i}"]['alpha'] = self.theta_alpha[i].item()
+            res["supernet_branches"][f"branch_{i}"]['alpha'] = theta_alpha[i].item()
         return res
 
     @property
